@@ -11,7 +11,7 @@ C16 fix commits).  `NP r` = "`r` is not a panic of any kind": no arithmetic over
 The hypothesis on the input is `bs.length < I32LIM = 2^31` (**inputs below 2 GiB**): the container walks
 `container_next` / `container_value_len` count the nesting in an **`i32`** (`let mut level = 1`, read.rs), and
 with 2^31 nested container-start bytes that counter overflows — a panic in an overflow-checks build, a
-wrap-around in release (`level_overflow_reachable` below shows the panic at the step level).  Below 2^31
+wrap-around in release (`level_overflow_reachable` below: the panic on every input of ≥ 2^31 structure starts).  Below 2^31
 bytes the counter cannot get there, because every container start consumes at least one byte
 (`skipLoop_np`, `cvlLoop_np`).  Matter messages are ≤ 1280 bytes (≤ 1 MB over TCP with large buffers).
 `len < 2^31` implies the `len + 1 < 2^64` that every Rust slice satisfies (`usize_of_i32lim`).
@@ -90,14 +90,27 @@ theorem no_panic_extra (bs : Bytes) (h : bs.length < I32LIM) :
 example : fmtOf 6 [0x15, 0x24, 0x01, 0x05, 0x18] = .ok () ∧ fmtOf 2 [0x18] = .err .mismatch ∧
     fmtOf 4 [0x15, 0x24, 0x01] = .err .mismatch := by decide
 
-/-- **The bound is needed in the model**: at `level = i32::MAX` one more container start overflows the
-`i32` counter (debug / overflow-checks build: `attempt to add with overflow`), for every tag form and
-container kind; one below it, and at every smaller positive level, the step does not panic.  Reaching that
-level takes 2^31 − 1 nested container-start bytes, which `len < 2^31` excludes. -/
-theorem level_overflow_reachable (tt : TagType) (k : Kind) :
+/-- one step of the counter: at `level = i32::MAX` one more container start overflows the `i32`
+(debug / overflow-checks build: `attempt to add with overflow`), for every tag form and container kind; at
+every smaller positive level the step does not panic.  (A one-step fact; the whole run is the next theorem.) -/
+theorem level_step_overflows_at_max (tt : TagType) (k : Kind) :
     levelStep ⟨tt, .cont k⟩ (I32LIM - 1) = .panic .overflow ∧
     (∀ l, 1 ≤ l → l + 1 < I32LIM → NP (levelStep ⟨tt, .cont k⟩ l)) :=
   ⟨levelStep_overflow tt k, fun l h1 h2 => levelStep_np _ l h1 h2⟩
+
+/-- **The bound is needed in the model — whole-run witness.**  On EVERY input that consists of at least 2^31
+anonymous structure-start bytes (`0x15`), `container_next` — and with it the first `next()` of the element
+iterator over such a sequence — panics with the `i32` overflow of `level`.  Proved symbolically by the loop
+lemma `skipLoop_opens` (after `k` structure starts the level is `1 + k`, for every `k` that fits), no 2-GiB
+list is evaluated.  So `no_panic_seq` is false without a length bound, and `len < 2^31` is the weakest bound of
+the form `len < B` for which it holds. -/
+theorem level_overflow_reachable (bs : Bytes) (hall : ∀ b ∈ bs, b = 0x15) (hlen : I32LIM ≤ bs.length) :
+    containerNext bs = .panic .overflow ∧ iterNext bs = (some (.panic .overflow), []) :=
+  ⟨containerNext_overflow bs hall hlen, iterNext_overflow bs hall hlen⟩
+
+-- the hypotheses are satisfiable (by a list nobody has to build) and contradict the bound of `no_panic_seq`
+example : ∃ bs : Bytes, (∀ b ∈ bs, b = 0x15) ∧ I32LIM ≤ bs.length ∧ ¬ bs.length < I32LIM :=
+  ⟨List.replicate I32LIM 0x15, fun _ h => (List.mem_replicate.mp h).2, by simp, by simp⟩
 
 /-- the bound of the theorems is weaker than what every Rust slice satisfies, and not vacuous -/
 theorem bound_implies_slice (n : Nat) (h : n < I32LIM) : n + 1 < USIZE := usize_of_i32lim h
@@ -259,7 +272,9 @@ example :
 
 /-- **What `TLVWrite::tlv` / `start_*` / `end_container` do with ANY tree** (no hypothesis): if every
 string length fits the length field of its element type the bytes are `encode v`; otherwise the writer
-answers `InvalidData` and — for a leaf — has written nothing.  (Before the fix it wrote `encode v` in both
+answers `InvalidData` (the refused element itself is not started; `write : Value → Res Bytes` has no buffer state, so
+"the buffer is unchanged for a refused top-level leaf" is checked by the Rust unit test only, and inside a container the
+bytes written before the refused leaf remain).  (Before the fix it wrote `encode v` in both
 cases, i.e. a length field truncated by `as u8/u16/u32`.) -/
 theorem writer_total (v : Value) :
     (v.lenFits = true → write v = .ok (encode v)) ∧ (v.lenFits = false → write v = .err .invalidData) := by
@@ -281,6 +296,41 @@ theorem decode_written (v : Value) (b : Bytes) (d : Nat) (rest : Bytes) (ht : v.
 example : ∃ v b, v.typed ∧ write v = .ok b ∧ b.length + 1 < I32LIM ∧ v.depth ≤ 2 :=
   ⟨.cont .anon .array (.cons (.leaf .anon (.str .w1 [7, 8])) .nil), [0x16, 0x10, 0x02, 7, 8, 0x18],
     ⟨trivial, ⟨trivial, trivial⟩, trivial⟩, by decide, by decide, by decide⟩
+
+/-! ### writer entry points OUTSIDE `Value`: a caller-side length (`stri` / `utf8i`, `str_cb` / `utf8_cb`)
+
+"The domain of the round trip = what the writer accepts" is a statement about `TLVWrite::tlv`, the integer /
+bool / null / float methods, `str` / `utf8` and the container methods — the entry points that take a *value*.
+`stri` / `utf8i` take a length **and** a byte iterator, `str_cb` / `utf8_cb` a callback that reports a length:
+the code trusts both.  What holds, and what does not: -/
+
+/-- `stri` / `utf8i` called with the true length (this is what `str` / `utf8` do) write the shortest-form leaf,
+which round-trips; `str_cb` / `utf8_cb` do so for callbacks that write at most 65535 bytes (valid UTF-8 for the
+`utf8` forms — a **caller precondition**, nothing in the code checks it) -/
+theorem length_writers_roundtrip (t : Tag) (data rest : Bytes) (hl : data.length < 2 ^ 64) :
+    writeStri false t data.length data = encode (.leaf t (Prim.mkStr data)) ∧
+    strOf (writeStri false t data.length data ++ rest) = .ok data ∧
+    (validUtf8 data = true → utf8Of (writeStri true t data.length data ++ rest) = .ok data) ∧
+    (data.length ≤ 65535 → writeStrCb false t data = .ok (encode (.leaf t (Prim.mkStr data)))) ∧
+    (data.length ≤ 65535 → writeStrCb true t data = .ok (encode (.leaf t (Prim.mkUtf8 data)))) := by
+  refine ⟨writeStri_str t data, ?_, fun hu => ?_, writeStrCb_str t data, writeStrCb_utf8 t data⟩
+  · rw [writeStri_str]; exact (str_roundtrip t _ data rest (lenWidth_fits _ hl)).1
+  · rw [writeStri_utf8]; exact utf8_roundtrip t _ data rest ⟨lenWidth_fits _ hl, hu⟩
+
+/-- **`str_cb` / `utf8_cb` panic** — a literal `panic!` in `finalize_len_header`, not an error — when the callback
+reports more than 65535 bytes.  A caller precondition; the callers inside rs-matter (Sigma2 / Sigma3 encrypted
+payloads, attestation elements, CSR response) write own certificates, fixed-length nonces and signatures. -/
+theorem cb_writers_panic_above_u16 (u : Bool) (t : Tag) (data : Bytes) (h : 65535 < data.length) :
+    writeStrCb u t data = .panic .explicit :=
+  writeStrCb_panics u t data h
+
+-- the preconditions are real: a wrong `len` or invalid UTF-8 is written without an error and the stream is
+-- corrupt (too short a `len`: the value is cut and the rest is read as further elements; too long: the
+-- element is truncated; `utf8i` with invalid UTF-8: the reader refuses what the writer accepted)
+example : strOf (writeStri false .anon 2 [1, 2, 3]) = .ok [1, 2] ∧
+    strOf (writeStri false .anon 4 [1, 2, 3]) = .err .mismatch ∧
+    utf8Of (writeStri true .anon 1 [0x80]) = .err .invalidData ∧
+    (writeStrCb true .anon [0x80]).isOk = true := by decide
 
 /-- **The truncating writer is a defect, not a modelling choice.**  `Str8l` holding a 300-byte slice is a
 value of the Rust type; the fixed `TLVWrite::tlv` refuses it; the truncating cast (`encode`: the writer before
@@ -325,12 +375,15 @@ theorem typed_roundtrip (t : Tag) (rest : Bytes) :
 
 /-- the writer methods that choose the width themselves (`u16/u32/u64`, `i16/i32/i64`, `str`,
 `utf8`) always produce a well-formed primitive, so the round trip applies to them: the value comes
-back through `u64()` / `i64()` whatever width was chosen -/
+back through `u64()` / `i64()` whatever width was chosen; an octet string of any length (`str`: third clause)
+and a **valid UTF-8** string (`utf8(&str)`: fourth clause — validity is what the `&str` type guarantees) are
+well-formed with the width the writer picks -/
 theorem shortest_form_roundtrip (t : Tag) (rest : Bytes) :
     (∀ n, n < 2 ^ 64 → u64 (encode (.leaf t (Prim.mkUint n)) ++ rest) = .ok n) ∧
     (∀ i : Int, -(2 ^ 63 : Nat) ≤ i ∧ i < (2 ^ 63 : Nat) → i64 (encode (.leaf t (Prim.mkSint i)) ++ rest) = .ok i) ∧
-    (∀ b : Bytes, b.length < 2 ^ 64 → (Prim.mkStr b).wf) := by
-  refine ⟨fun n h => ?_, fun i h => ?_, fun b h => ?_⟩
+    (∀ b : Bytes, b.length < 2 ^ 64 → (Prim.mkStr b).wf) ∧
+    (∀ b : Bytes, b.length < 2 ^ 64 → validUtf8 b = true → (Prim.mkUtf8 b).wf) := by
+  refine ⟨fun n h => ?_, fun i h => ?_, fun b h => ?_, fun b h hu => ⟨lenWidth_fits b.length h, hu⟩⟩
   · obtain ⟨w, hw⟩ := mkUint_eq n
     have hwf := mkUint_wf n h
     rw [hw] at hwf ⊢
